@@ -425,6 +425,11 @@ def rule_res1(ctx: Ctx) -> RuleResult:
         h = rs[0]
         rr.instances += 1
         rets = [n for n in walk_no_nested(h.node) if isinstance(n, ast.Return) and n.value is not None]
+        # an answer remembered from an earlier call (CACHEINV-1 decides that the table is emptied when the registry changes)
+        memo_names = {norm(t) for a in walk_no_nested(h.node) if isinstance(a, ast.Assign) and isinstance(a.value, (ast.Call, ast.Subscript))
+                      and norm(a.value).startswith("self._") and (".get(" in norm(a.value) or isinstance(a.value, ast.Subscript))
+                      for t in a.targets}
+        rets = [r for r in rets if not (memo_names and any(isinstance(x, ast.Name) and x.id in memo_names for x in ast.walk(r.value)))]
         vararg = h.node.args.vararg.arg if h.node.args.vararg else None
         ok = False
         why = "unexpected shape"
